@@ -37,6 +37,11 @@ impl OrphanBroker {
     }
 
     fn search_orphan_leader(&self, leader_hash: ParentHash) {
+        // The pending-verification set has to be read before the status: the verifier publishes a
+        // block's verdict first and leaves the set afterwards. Read the other way round, a leader
+        // that finishes verification between the two reads is seen as "no verdict yet" and "not
+        // pending", and its orphans stay stranded until some later block arrives.
+        let leader_is_pending_verify = self.is_pending_verify.contains(&leader_hash);
         let leader_status = self.shared.get_block_status(&leader_hash);
 
         if leader_status.eq(&BlockStatus::BLOCK_INVALID) {
@@ -49,10 +54,6 @@ impl OrphanBroker {
             return;
         }
 
-        #[cfg(feature = "verif-hooks")]
-        crate::verif::gate("search_orphan_leader:after-status", &leader_hash);
-
-        let leader_is_pending_verify = self.is_pending_verify.contains(&leader_hash);
         if !leader_is_pending_verify && !leader_status.contains(BlockStatus::BLOCK_STORED) {
             trace!(
                 "orphan leader: {} not stored {:?} and not in is_pending_verify: {}",
